@@ -34,6 +34,8 @@ CHECKS = {
          "for every enumerated (family, n, k, which, algorithm) the returned values are compared as a multiset with the k extreme-modulus eigenvalues of the prescribed spectrum and every returned pair with the eigen-equation, independence and (self-adjoint input) orthonormality"),
  "C16": ("m x n operators in {1..5}^2 plus tall/wide/large shapes, real and complex with prescribed singular values, structural kinds x ALL 1<=k<=min(m,n) x {LM, SM} x 4 svd algorithms; pinv on the same operators x 4 algorithms x 3-4 right-hand sides",
          "for every enumerated (operator, k, which, algorithm) orthonormality of U and V, non-negativity of Sigma and the reconstruction (A itself or the requested rank-k part) are checked; pinv(A) b is compared with the minimum-norm least-squares solution from numpy.linalg.pinv of the reference"),
+ "C12": ("(system family, size, right-hand side, x0, preconditioner) x EVERY truncation max_iters (each prefix run is a checked state) x 3 tolerances x scalings x entry points; independent Krylov optimum in exact rational arithmetic for n<=6",
+         "for every enumerated system every k-step prefix of CG is compared per column with the independently computed A-norm optimum over x0 + K_k(PA, P r0); the cap on products, the stopping inequality at the stop and one step earlier, exact zeros for zero right-hand sides, linearity in b and the bookkeeping are checked on the same runs"),
 }
 PENDING = {}
 props = [json.loads(l) for l in open(os.path.join(ROOT, "properties.jsonl"))]
